@@ -230,6 +230,9 @@ enum Op {
     LibEnsure,
     WhenNotPaused,
     WhenPaused,
+    GrantManager(usize, usize),
+    RevokeManager(usize, usize),
+    RenounceManager(usize),
 }
 fn an(i: usize) -> String { format!("{}%N", i) }
 impl Op {
@@ -256,6 +259,9 @@ impl Op {
             Op::LibEnsure => "LibEnsure".into(),
             Op::WhenNotPaused => "WhenNotPaused".into(),
             Op::WhenPaused => "WhenPaused".into(),
+            Op::GrantManager(a, c) => format!("GrantManager {} {}", an(*a), an(*c)),
+            Op::RevokeManager(a, c) => format!("RevokeManager {} {}", an(*a), an(*c)),
+            Op::RenounceManager(c) => format!("RenounceManager {}", an(*c)),
         }
     }
     fn tag(&self) -> &'static str {
@@ -267,20 +273,22 @@ impl Op {
             Op::SetCap(_) => "set_cap", Op::Upgrade(..) => "upgrade", Op::Migrate(..) => "migrate",
             Op::LibEnable => "lib_enable", Op::LibComplete => "lib_complete", Op::LibEnsure => "lib_ensure",
             Op::WhenNotPaused => "guarded_np", Op::WhenPaused => "guarded_p",
+            Op::GrantManager(..) => "grant_role", Op::RevokeManager(..) => "revoke_role", Op::RenounceManager(..) => "renounce_role",
         }
     }
     fn pausable(&self) -> bool { matches!(self, Op::Transfer(..) | Op::TransferFrom(..) | Op::Burn(..) | Op::BurnFrom(..) | Op::Mint(..) | Op::WhenNotPaused) }
 }
 
 #[derive(Clone, PartialEq, Debug)]
-struct Obs { supply: i128, bal: Vec<i128>, alw: Vec<Vec<i128>>, paused: bool, list: Vec<Option<bool>>, cap: Option<i128>, mig: bool, data: Option<u32>, trap: bool }
+struct Obs { supply: i128, bal: Vec<i128>, alw: Vec<Vec<i128>>, paused: bool, list: Vec<Option<bool>>, cap: Option<i128>, mig: bool, data: Option<u32>, trap: bool, mgr: Vec<bool> }
 impl Obs {
     fn coq(&self) -> String {
         let bals: Vec<String> = self.bal.iter().map(|v| z(*v)).collect();
         let rows: Vec<String> = self.alw.iter().map(|r| list(&r.iter().map(|v| z(*v)).collect::<Vec<_>>())).collect();
         let ls: Vec<String> = self.list.iter().map(|v| opt(v.map(b))).collect();
-        format!("(mkObs {} {} {} {} {} {} {} {} {})", z(self.supply), list(&bals), list(&rows), b(self.paused), list(&ls),
-            opt(self.cap.map(z)), b(self.mig), opt(self.data.map(|d| d.to_string())), b(self.trap))
+        let ms: Vec<String> = self.mgr.iter().map(|v| b(*v)).collect();
+        format!("(mkObs {} {} {} {} {} {} {} {} {} {})", z(self.supply), list(&bals), list(&rows), b(self.paused), list(&ls),
+            opt(self.cap.map(z)), b(self.mig), opt(self.data.map(|d| d.to_string())), b(self.trap), list(&ms))
     }
 }
 
@@ -331,8 +339,8 @@ impl Sys {
                 let dead = Address::generate(&e);
                 let na = p.na;
                 return Sys { e, p, id: dead, a, hash: None, steps: std::vec![], dead: true, unread: std::vec![false; na], hist_list: std::vec![false; na], poisoned: false,
-                    obs0: "(mkObs (-1) [] [] false [] None false None true)".into(),
-                    prev: Obs { supply: -1, bal: std::vec![], alw: std::vec![], paused: false, list: std::vec![], cap: None, mig: false, data: None, trap: true } };
+                    obs0: "(mkObs (-1) [] [] false [] None false None true [])".into(),
+                    prev: Obs { supply: -1, bal: std::vec![], alw: std::vec![], paused: false, list: std::vec![], cap: None, mig: false, data: None, trap: true, mgr: std::vec![] } };
             }
         };
         let hash = if matches!(p.kind, Kind::UpgV1 | Kind::UpgV2) {
@@ -343,7 +351,7 @@ impl Sys {
         let mut hist_list = std::vec![false; na];
         if p.kind == Kind::AllowEx { hist_list[p.owner] = true; }
         let mut s = Sys { e, p, id, a, hash, steps: std::vec![], obs0: String::new(), dead: false, unread: std::vec![false; na], hist_list, poisoned: false,
-            prev: Obs { supply: 0, bal: std::vec![], alw: std::vec![], paused: false, list: std::vec![], cap: None, mig: false, data: None, trap: false } };
+            prev: Obs { supply: 0, bal: std::vec![], alw: std::vec![], paused: false, list: std::vec![], cap: None, mig: false, data: None, trap: false, mgr: std::vec![] } };
         s.prev = s.observe();
         s.obs0 = s.prev.coq();
         s
@@ -390,7 +398,14 @@ impl Sys {
         };
         let mig = if k.is_upg() { self.get::<bool>("migrating", soroban_sdk::vec![e], &mut trap, false) } else { false };
         let data = if k == Kind::UpgV2 { self.get::<Option<u32>>("data", soroban_sdk::vec![e], &mut trap, None) } else { None };
-        Obs { supply, bal, alw, paused, list, cap, mig, data, trap }
+        // holders of the "manager" role (allow/block-list examples: AccessControl::has_role); the other
+        // contracts have no role table: the constructor argument `manager` is reported
+        let mgr: Vec<bool> = (0..self.p.na).map(|i| {
+            if matches!(k, Kind::AllowEx | Kind::BlockEx) {
+                self.get::<Option<u32>>("has_role", soroban_sdk::vec![e, self.a[i].to_val(), Symbol::new(e, "manager").to_val()], &mut trap, None).is_some()
+            } else { i == self.p.manager }
+        }).collect();
+        Obs { supply, bal, alw, paused, list, cap, mig, data, trap, mgr }
     }
 
     fn fn_and_args(&self, op: &Op) -> (&'static str, soroban_sdk::Vec<Val>) {
@@ -409,6 +424,9 @@ impl Sys {
             Op::Unpause(c) => ("unpause", if lib { soroban_sdk::vec![e] } else { soroban_sdk::vec![e, a(c)] }),
             Op::WhenNotPaused => ("guarded_np", soroban_sdk::vec![e]),
             Op::WhenPaused => ("guarded_p", soroban_sdk::vec![e]),
+            Op::GrantManager(x, c) => ("grant_role", soroban_sdk::vec![e, a(x), Symbol::new(e, "manager").to_val(), a(c)]),
+            Op::RevokeManager(x, c) => ("revoke_role", soroban_sdk::vec![e, a(x), Symbol::new(e, "manager").to_val(), a(c)]),
+            Op::RenounceManager(c) => ("renounce_role", soroban_sdk::vec![e, Symbol::new(e, "manager").to_val(), a(c)]),
             Op::AllowUser(u, o) => ("allow_user", if lib { soroban_sdk::vec![e, a(u)] } else { soroban_sdk::vec![e, a(u), a(o)] }),
             Op::DisallowUser(u, o) => ("disallow_user", if lib { soroban_sdk::vec![e, a(u)] } else { soroban_sdk::vec![e, a(u), a(o)] }),
             Op::BlockUser(u, o) => ("block_user", if lib { soroban_sdk::vec![e, a(u)] } else { soroban_sdk::vec![e, a(u), a(o)] }),
@@ -592,6 +610,7 @@ fn needed_signer(k: Kind, op: &Op, owner: usize) -> Option<usize> {
         Op::Pause(c) | Op::Unpause(c) => if k.is_lib() { None } else { Some(*c) },
         Op::AllowUser(_, o) | Op::DisallowUser(_, o) | Op::BlockUser(_, o) | Op::UnblockUser(_, o) => if k.is_lib() { None } else { Some(*o) },
         Op::Upgrade(_, o) | Op::Migrate(_, o) => Some(*o),
+        Op::GrantManager(_, c) | Op::RevokeManager(_, c) | Op::RenounceManager(c) => Some(*c),
         _ => None,
     }
 }
@@ -611,7 +630,10 @@ fn random_op(rng: &mut Rng, s: &Sys, budget_left: &mut u32) -> Op {
         let ps: Vec<(usize, usize)> = (0..na).flat_map(|o| (0..na).map(move |sp| (o, sp))).filter(|(o, sp)| p.alw[*o][*sp] > 0).collect();
         if !ps.is_empty() && rng.chance(4, 5) { *rng.pick(&ps) } else { (rng.below(na as u64) as usize, rng.below(na as u64) as usize) }
     };
-    let operator = |rng: &mut Rng| -> usize { if rng.chance(5, 6) { s.p.manager } else { rng.below(na as u64) as usize } };
+    let operator = |rng: &mut Rng| -> usize {
+        let ms: Vec<usize> = (0..na).filter(|i| p.mgr.get(*i).copied().unwrap_or(false)).collect();
+        if !ms.is_empty() && rng.chance(4, 6) { *rng.pick(&ms) } else if rng.chance(1, 2) { s.p.manager } else { rng.below(na as u64) as usize }
+    };
     let boss = |rng: &mut Rng| -> usize { if rng.chance(5, 6) { s.p.owner } else { rng.below(na as u64) as usize } };
     let adv = |rng: &mut Rng, left: &mut u32| -> Op {
         let n = match rng.below(9) { 0 => 0, 1 => 1, 2 => rng.range(2, 30) as u32, 3 => rng.range(100, 450) as u32, 4 => 20, 5 => 100, 6 => 20_000, 7 => 17_281, _ => rng.range(1, 5) as u32 };
@@ -642,6 +664,10 @@ fn random_op(rng: &mut Rng, s: &Sys, budget_left: &mut u32) -> Op {
             (_, 94..=96) => Op::Pause(boss(rng)),
             (_, _) => Op::Mint(any(rng), 5),
         };
+    }
+    if matches!(k, Kind::AllowEx | Kind::BlockEx) && rng.chance(1, 14) {
+        let admin = if rng.chance(5, 6) { s.p.owner } else { any(rng) };
+        return match rng.below(5) { 0 | 1 => Op::GrantManager(any(rng), admin), 2 | 3 => Op::RevokeManager(operator(rng), admin), _ => Op::RenounceManager(operator(rng)) };
     }
     let r = rng.below(100);
     // gate operations of the kind
@@ -891,6 +917,41 @@ fn directed_upgrade(out: &mut Out) {
     s.finish(out, "directed-upgrade-lib");
 }
 
+/// the "manager" role guarding the list entry points of the two examples changes mid-trace
+fn directed_manager(out: &mut Out) {
+    for kind in [Kind::AllowEx, Kind::BlockEx] {
+        for (own, man) in [(0usize, 3usize), (0, 0)] {
+            let mut s = Sys::deploy(Params { kind, na: 4, owner: own, manager: man, max_ttl: 100_000, init_supply: 1000, cap: 0, now0: 5, min_temp: 1 });
+            let (u, other) = (1usize, 2usize);
+            let add = |s: &mut Sys, out: &mut Out, x: usize, op_: usize, au: &[usize]| { if kind.is_allow() { s.step(out, Op::AllowUser(x, op_), au) } else { s.step(out, Op::BlockUser(x, op_), au) } };
+            let del = |s: &mut Sys, out: &mut Out, x: usize, op_: usize, au: &[usize]| { if kind.is_allow() { s.step(out, Op::DisallowUser(x, op_), au) } else { s.step(out, Op::UnblockUser(x, op_), au) } };
+            add(&mut s, out, u, man, &[man]);
+            add(&mut s, out, u, other, &[other]);                      // never was a manager
+            s.step(out, Op::GrantManager(other, other), &[other]);     // not the admin
+            s.step(out, Op::GrantManager(other, own), &[]);            // no auth
+            s.step(out, Op::GrantManager(other, own), &[own]);
+            s.step(out, Op::GrantManager(other, own), &[own]);         // idempotent
+            del(&mut s, out, u, other, &[other]);                      // the new manager works at once
+            s.step(out, Op::RevokeManager(u, own), &[own]);            // role not held
+            s.step(out, Op::RevokeManager(man, other), &[other]);      // a manager is not the admin
+            s.step(out, Op::RevokeManager(man, own), &[own]);
+            add(&mut s, out, u, man, &[man]);                          // revoked manager is refused at once
+            del(&mut s, out, u, man, &[man]);
+            s.step(out, Op::Advance(20_000), &[]);
+            add(&mut s, out, u, man, &[man]);                          // ... and stays refused
+            add(&mut s, out, u, other, &[other]);                      // the granted one stays accepted
+            s.step(out, Op::RenounceManager(man), &[man]);             // not held any more
+            s.step(out, Op::RenounceManager(other), &[]);
+            s.step(out, Op::RenounceManager(other), &[other]);
+            del(&mut s, out, u, other, &[other]);
+            s.step(out, Op::GrantManager(man, own), &[own]);
+            del(&mut s, out, u, man, &[man]);
+            s.step(out, Op::Transfer(own, u, 5), &[own]);
+            s.finish(out, "directed-manager");
+        }
+    }
+}
+
 /// gate changes persist until explicitly reverted: the ledger advances far (beyond the minimum
 /// temporary lifetime 16, beyond a day = 17280 ledgers) between the gate operation and the next
 /// gated call, and for list entries NOBODY reads the account's status in between.
@@ -1060,6 +1121,7 @@ fn main() {
     directed_cap(&mut out);
     directed_upgrade(&mut out);
     directed_persistence(&mut out);
+    directed_manager(&mut out);
     exhaustive(&mut out, thorough);
 
     // random interleavings
